@@ -781,6 +781,11 @@ def rdkit_compare(ck, s, kind):
         return False
     if rd is None or mol is None or not isinstance(mol, MoleculeContainer):
         ck.count(f'rdkit:{kind}:' + ('both-reject' if rd is None and mol is None else 'rdkit-only-rejects' if rd is None else 'chython-only-rejects'))
+        if kind in ('corpus', 'language') and mol is None and rd is not None:
+            # a text of the supported language (the shipped drug-like strings; every element / charge spelling / bond symbol) is refused
+            ck.counterexample(f'rejected-inside-language:{s}', 'a SMILES of the supported language is rejected', {'smiles': s, 'kind': kind},
+                              f'{type(e).__name__}: {e}', 'a molecule (RDKit reads it)', 'RDKit MolFromSmiles',
+                              replay_py=f"from chython import smiles\nprint(smiles({s!r}))")
         return False
     ra, rb, sane = rd
     ca, cb = chython_graph(mol)
@@ -926,6 +931,15 @@ def search(ck):
     for L in (1, 2, 3) if quick else (1, 2, 3, 4):
         for t in itertools.product(toks, repeat=L):
             n_cmp += rdkit_compare(ck, ''.join(t), 'short')
+    # every charge spelling, bond symbol, organic-subset / aromatic symbol and a bracket atom of every element RDKit knows
+    from chython.files.daylight.tokenize import charge_dict
+    lang = ['[Fe' + k + ']' for k in charge_dict] + ['[N' + k + ']' for k in charge_dict if k.startswith('-')] + \
+           ['CC', 'C-C', 'C=C', 'C#C', 'c:c', 'C/C=C/C', 'C/C=C\\C', 'C.C'] + ['C' + x for x in ('N', 'O', 'P', 'S', 'F', 'I', 'Cl', 'Br', 'B')] + \
+           [x + '1cccc1' for x in ('n', 'o', 's', 'p', '[nH]', '[se]', '[te]')] + ['c1ccccc1', 'b1ccccc1', 'c1cc[as]cc1'] + \
+           ['[' + a.atomic_symbol + ']' for a in (c() for c in __import__('chython').periodictable.Element.__subclasses__()) if a.atomic_number <= 103] + \
+           ['[13CH4]', '[2H]O[2H]', '[CH3-]', '[NH4+]', '[OH3+]', '[C@H](F)(Cl)Br', '[CH2:1]=[CH2:2]', 'C%10CC%10', 'C12CC1C2', '[235U]']
+    for s in lang:
+        n_cmp += rdkit_compare(ck, s, 'language')
     ck.extra['rdkit_compared'] = n_cmp
     # (3) E/Z from direction marks, ring-closure digits included
     n_ez = 0
